@@ -30,7 +30,7 @@ SCEN = {
     # a thread id used again inside one run: C traces under A's tid after A has ended ("|" separates the earlier owner's life)
     "h7": "A:pinit A:init A:x A:ev16 A:e A:f A:free | C:init C:x C:j4032 C:e C:f C:x C:ev16 C:e C:f C:free A:pfini",
 }
-TIDS = {"A": 101, "B": 102, "C": 101, "D": 103}
+TIDS = {"A": 100, "B": 102, "C": 100, "D": 103}
 # metadata larger than a stdio buffer (written in several chunks), relocated too
 SCEN["h9"] = "A:pinit A:init A:abig A:x A:ev0 A:e A:f A:free A:pfini"
 # three threads of one process, interleaved
